@@ -337,8 +337,8 @@ func (env *Env) buildReflect(idx int, fs FuncSpec, opts []am.Arg) (*am.Func, err
 				res = append(res, reflect.Zero(outT[0]))
 				for _, l := range fs.Out {
 					env.tok() // a token number is consumed all the same, so that numbering does not depend on it
-					if IsIface(l.Type) {
-						ex.Outs = append(ex.Outs, -1) // nil interface
+					if IsIface(l.Type) || TypeOf(l.Type).Kind() == reflect.Ptr {
+						ex.Outs = append(ex.Outs, -1) // nil interface / nil pointer
 					} else {
 						ex.Outs = append(ex.Outs, 0) // zero struct
 					}
